@@ -19,7 +19,7 @@ from . import common
 
 NAME = "U-frame"
 TOOL = "verus"
-PROPS = ["C12", "C14", "C16", "C02", "C18", "C03"]
+PROPS = ["C12", "C14", "C16", "C02", "C18", "C03", "C06", "C08"]
 RLIMIT = 10
 TRUSTED = ["verus 0.2026.09.13 + z3 (the assertions are literal)", "a field of self is written only by code that names it: scan of the function's text and of the helpers it calls in the same impl"]
 
@@ -40,6 +40,10 @@ FRAMES = [
      "compile_func_decl neither unwraps the parse of a bank number nor casts an array size unchecked"),
     ("src/compile.rs", "CompilerState", "compile_local_var_decl", [r"parse_calc\([^;]*\)\?\s*as\s+usize"], "C16", "declaration-numbers-checked-local",
      "compile_local_var_decl does not cast an array size unchecked"),
+    ("src/compile.rs", "CompilerState", "compile_var_decl", [r"\bsign\s*\*\s*(?:offset|parse_int)"], "C16", "reference-offset-sign-applied-without-overflow",
+     "the sign of `name - k` in an initialiser is not applied with an unchecked multiplication"),
+    ("src/cpp.rs", None, "process", [r"\.read_line\(&mut \w+\)\s*\?", r"File::open\(path\)\s*\?"], "C06", "io-errors-carry-a-location",
+     "an input / output failure while reading a source or opening an include is not propagated bare (it is converted into an error with file, line and includer)"),
     ("src/cpp.rs", None, "process", [r"let\s+vx\s*=\s*v\.trim_start\(\)\s*;"], "C16,C08", "macro-parameter-trimmed-on-both-sides",
      "a macro parameter is not used with its trailing blanks (it names a capture group of a regular expression)"),
     ("src/generate/generate_statements.rs", "GeneratorState", "generate_statement", [r"mapped_lines\s*\[", r"\.truncate\(256\)"], "C16", "source-listing-indexes-and-cuts-checked",
@@ -66,6 +70,9 @@ def candidates(f):
         ("unsigned char i;\nvoid main() { asm(\"nop\", -1); if (i) i = 1; }\n", "negative size of inline assembly before a branch"),
         ("char arr[4]; unsigned char r;\nvoid main() { r = (arr >> 8) + 16777216; }\n", "(arr >> 8) + 2^24"), ("char arr[4]; unsigned char r;\nvoid main() { r = (arr >> 8) - 16777216; }\n", "(arr >> 8) - 2^24"),
         ("char a[4];\nvoid main() { X = a[\"abc\" + 1]; }\n", "a literal plus a constant as a subscript"),
+        ("const char a[] = {1}; const char s[] = {a - -2147483648}; void main() { }\n", "name - INT_MIN in an initialiser"),
+        ("short a[3]; void main() { a[2147483647] = 4; }\n", "constant subscript near INT_MAX"), ("superchip char su[4]; char c; void main() { c = su[2147483647]; }\n", "constant subscript near INT_MAX on split-port RAM"),
+        ("char a[4]; char c; void main() { c = a[\"s\" >> 8]; }\n", "a shifted literal as a subscript"),
         ("bank99999999999 const char a[2] = {1,2}; void main() {}\n", "bank number that does not fit"), ("bank99999999999 void main() {}\n", "bank number of a function that does not fit"),
         ("short a[-1]; char b; void main() { b = sizeof(a); }\n", "negative array size"),
         ("#define MAX(a , b) ((a) > (b) ? (a) : (b))\nchar x; void main() { x = MAX(1, 2); }\n", "blank before the comma of a macro parameter list"),
